@@ -10,7 +10,7 @@ PROOF_FILES = ["proofs/BaseFacts.v", "proofs/StreamInv.v", "proofs/CollectionRef
 ALLOWED_AXIOMS = []
 RULE = ("stream suite: random constructor arguments + 0..8 setter calls (t_supply, t_target, dt_cont, heat_flow, htc, "
         "set_heat_flow) on a coarse temperature lattice so that kind-crossing and isothermal re-assignments are frequent; "
-        "collection suite: random op sequences (add/add_many/remove/replace/set_sort_key/concat/iter/len/index/contains) over "
+        "collection suite: random op sequences (add/add_many/remove/replace/set_sort_key/concat (c + other and c += other)/iter/len/index/contains) over "
         "8 member objects with names from a 3-name alphabet; the implementation is observed after every op; a case is "
         "non-trivial when it has >= 2 ops and (stream) crosses kind or passes through supply == target, or (collection) "
         "renames at least one clashing key; distinct = distinct (constructor, op list)")
@@ -194,7 +194,8 @@ def gen_coll_case(rng):
         elif k < 0.66:
             ops.append(("set_key", rng.randrange(len(KEYSPECS)), rng.random() < 0.5))
         elif k < 0.72:
-            ops.append(("concat", [rng.randrange(nm) for _ in range(rng.randint(0, 3))]))
+            # c = c + other, or the augmented form c += other (same meaning: the class defines no in-place variant)
+            ops.append(("concat", [rng.randrange(nm) for _ in range(rng.randint(0, 3))], rng.random() < 0.5))
         elif k < 0.82:
             ops.append(("iter",))
         elif k < 0.88:
@@ -235,7 +236,10 @@ def run_coll_case(members, ops):
                 other = StreamCollection()
                 for i in op[1]:
                     other.add(objs[i])
-                c = c + other
+                if len(op) > 2 and op[2]:
+                    c += other
+                else:
+                    c = c + other
             elif op[0] == "iter":
                 out = ("ids", [ident[id(s)] for s in c])
             elif op[0] == "len":
